@@ -76,6 +76,33 @@ def headBit : List Bool → Bool
 /-- drop the bit consumed at this level -/
 def tails {V : Type} (kvs : List (KV V)) : List (KV V) := kvs.map fun kv => (kv.1.tail, kv.2)
 
+/-- `updateRight` / `updateLeft` / `updateParallel` on the two halves `lk`, `rk` of the batch, with
+the recursive call `upd` (= `update (h-1)`). -/
+def splitCore {V : Type} (upd : T V → List (KV V) → T V × Bool) (l r : T V) (lk rk : List (KV V)) : T V × Bool :=
+  match lk, rk with
+  | [], _ :: _ =>
+    let (r', d) := upd r (tails rk)
+    if d then moveUp l r' else (.node l r', false)
+  | _ :: _, [] =>
+    let (l', d) := upd l (tails lk)
+    if d then moveUp l' r else (.node l' r, false)
+  | _, _ =>
+    let (l', dl) := upd l (tails lk)
+    let (r', dr) := upd r (tails rk)
+    if dl || dr then moveUp l' r' else (.node l' r', false)
+
+/-- `splitKeys` (cut the sorted batch at the first key whose bit is set), then `splitCore`. -/
+def splitGen {V : Type} (upd : T V → List (KV V) → T V × Bool) (l r : T V) (kvs : List (KV V)) : T V × Bool :=
+  splitCore upd l r (kvs.takeWhile fun kv => !headBit kv.1) (kvs.dropWhile fun kv => !headBit kv.1)
+
+/-- The part of `Trie.update` after the node is loaded: the one-key-into-an-empty-subtree case
+("Store shortcut node"), else `splitGen`. -/
+def split {V : Type} (upd : T V → List (KV V) → T V × Bool) (l r : T V) (kvs : List (KV V)) : T V × Bool :=
+  match l, r, kvs with
+  | .empty, .empty, [(k, some v)] => (.leaf k v, false)
+  | .empty, .empty, [(_, none)] => (.empty, true)
+  | _, _, _ => splitGen upd l r kvs
+
 /-- `Trie.update` at height `h`: new subtree and the `deleted` flag of `mresult`. -/
 def update {V : Type} : Nat → T V → List (KV V) → T V × Bool
   | 0, _, kvs =>
@@ -83,31 +110,14 @@ def update {V : Type} : Nat → T V → List (KV V) → T V × Bool
     | (k, some v) :: _ => (.leaf k v, false)
     | (_, none) :: _ => (.empty, true)
     | [] => (.empty, true)            -- Go: values[0] panics; unreachable for a non-empty batch
-  | h + 1, t, kvs0 =>
+  | h + 1, t, kvs =>
     -- loadChildren; a shortcut is merged into the batch and the subtree is considered default
-    let (l, r, kvs, sc) : T V × T V × List (KV V) × Bool := match t with
-      | .leaf sk sv => (.empty, .empty, addShortcut kvs0 sk sv, true)
-      | .node l r => (l, r, kvs0, false)
-      | .empty => (.empty, .empty, kvs0, false)
-    if sc && kvs.isEmpty then (.empty, true) else
-    match l, r, kvs with
-    | .empty, .empty, [(k, some v)] => (.leaf k v, false)    -- one key into an empty subtree: shortcut
-    | .empty, .empty, [(_, none)] => (.empty, true)
-    | _, _, _ =>
-      -- splitKeys: first key whose bit is set
-      let lk := kvs.takeWhile fun kv => !headBit kv.1
-      let rk := kvs.dropWhile fun kv => !headBit kv.1
-      match lk, rk with
-      | [], _ :: _ =>
-        let (r', d) := update h r (tails rk)
-        if d then moveUp l r' else (.node l r', false)
-      | _ :: _, [] =>
-        let (l', d) := update h l (tails lk)
-        if d then moveUp l' r else (.node l' r, false)
-      | _, _ =>
-        let (l', dl) := update h l (tails lk)
-        let (r', dr) := update h r (tails rk)
-        if dl || dr then moveUp l' r' else (.node l' r', false)
+    match t with
+    | .leaf sk sv =>
+      let kvs' := addShortcut kvs sk sv
+      if kvs'.isEmpty then (.empty, true) else split (update h) .empty .empty kvs'
+    | .node l r => split (update h) l r kvs
+    | .empty => split (update h) .empty .empty kvs
 
 /-- `Trie.get`. -/
 def get {V : Type} : T V → List Bool → Option V
